@@ -398,8 +398,14 @@ type c14case struct {
 	tags                       []string
 }
 
+// the key of a deposit's aggregates: registry encoding + keccak (the reporters' path), which must be the id the
+// keeper under test computes for itself (TestC14QueryId compares both with the model's keccak-256 of the model's bytes)
 func (c *c14case) depQid(dep uint64) []byte {
-	return utils.QueryIDFromData(c14qdata(true, new(big.Int).SetUint64(dep)))
+	q := utils.QueryIDFromData(c14qdata(true, new(big.Int).SetUint64(dep)))
+	if kq, err := c.e.w.s.Bridgekeeper.GetDepositQueryId(dep); err != nil || string(kq) != string(q) {
+		panic(fmt.Sprintf("deposit %d: GetDepositQueryId %x (%v) differs from keccak(registry encoding) %x", dep, kq, err, q))
+	}
+	return q
 }
 
 func (c *c14case) addBech(s string) {
@@ -508,6 +514,9 @@ func (c *c14case) withdraw(sender int, denom string, amount *big.Int, rcpt strin
 			}
 		}
 		qid := utils.QueryIDFromData(c14qdata(false, new(big.Int).SetUint64(wid)))
+		if kq, err := c.e.w.s.Bridgekeeper.GetWithdrawalQueryId(wid); err != nil || string(kq) != string(qid) {
+			panic(fmt.Sprintf("withdrawal %d: GetWithdrawalQueryId %x (%v) differs from keccak(registry encoding) %x", wid, kq, err, qid))
+		}
 		ts, as := c.e.aggsOf(c.ctx, qid)
 		if len(ts) == 1 {
 			o.w = fmt.Sprintf("(WPub %s %s %s %s %s %d)", czu(wid), cstr(as[0].AggregateValue), czu(as[0].ReporterPower), czu(ts[0]), cbool(as[0].Flagged), len(as[0].Reporters))
